@@ -93,6 +93,7 @@ func main() {
 	srcFile := flag.String("src", "", "debug: run one concrete program through the interpreter and print its stdout")
 	srcCfg := flag.String("cfg", "", "debug: configuration variant for -src")
 	srcEntry := flag.String("entry", "VerifRunSrc", "debug: entry for -src")
+	maxPathsFlag := flag.Int("maxpaths", 0, "debug: cap the number of paths per job")
 	cpuprof := flag.String("cpuprofile", "", "write cpu profile")
 	flag.Parse()
 	if *cpuprof != "" {
@@ -220,6 +221,9 @@ func main() {
 	for _, job := range jobs {
 		if *onlyJob != "" && job.Name != *onlyJob {
 			continue
+		}
+		if *maxPathsFlag > 0 {
+			job.MaxPaths = *maxPathsFlag
 		}
 		res, err := RunJob(prog, job, *workers, false, z3)
 		if err != nil {
